@@ -1,9 +1,9 @@
 #!/bin/sh
-# tools/save_seeded.sh <cNN>: copy a seeder's output from /tmp/mut_<cNN>/out/<i>/ to seeded/<CNN>-<i>/ and remove its worktree
+# tools/save_seeded.sh <cNN> [prefix]: copy a seeder's output from /tmp/<prefix>_<cNN>/out/<i>/ to seeded/<CNN>-<i>/ and remove its worktree
+# (prefix defaults to "mut").  Does not touch /repo's working tree.
 set -e
-p=$1; P=$(echo $p | tr a-z A-Z)
+p=$1; pre=${2:-mut}; P=$(echo $p | tr a-z A-Z)
 cd "$(dirname "$0")/.."
-for d in /tmp/mut_$p/out/[0-9]*; do i=$(basename $d); mkdir -p seeded/$P-$i; cp -r $d/. seeded/$P-$i/; done
-git -C /repo worktree remove --force /tmp/mut_$p || true
-rm -rf /tmp/mut_$p /tmp/mut_$p.task.txt
-for f in seeded/$P-*/patch.diff; do (cd /repo && git apply --check /verif/$f && echo "applies: $f") || echo "DOES NOT APPLY: $f"; done
+for d in /tmp/${pre}_$p/out/[0-9]*; do i=$(basename $d); mkdir -p seeded/$P-$i; cp -r $d/. seeded/$P-$i/; echo "saved seeded/$P-$i"; done
+git -C /repo worktree remove --force /tmp/${pre}_$p || true
+rm -rf /tmp/${pre}_$p /tmp/${pre}_$p.task.txt
